@@ -1,20 +1,26 @@
 (* Generic line driver for an extracted model: every byte of the input line becomes a Coq N,
-   Model.entry (parser, model step, printer: all extracted Coq) maps it to output bytes. *)
-open Model
+   Model.entry (parser, model, printer: all extracted Coq) maps it to output bytes. *)
 let rec pos_of_int n =
-  if n = 1 then XH else if n land 1 = 0 then XO (pos_of_int (n lsr 1)) else XI (pos_of_int (n lsr 1))
-let n_of_int n = if n = 0 then N0 else Npos (pos_of_int n)
-let rec int_of_pos = function XH -> 1 | XO p -> 2 * int_of_pos p | XI p -> 2 * int_of_pos p + 1
-let int_of_n = function N0 -> 0 | Npos p -> int_of_pos p
+  if n = 1 then Model.XH
+  else if n land 1 = 0 then Model.XO (pos_of_int (n lsr 1))
+  else Model.XI (pos_of_int (n lsr 1))
+let n_of_int n = if n = 0 then Model.N0 else Model.Npos (pos_of_int n)
+let rec int_of_pos = function
+  | Model.XH -> 1
+  | Model.XO p -> 2 * int_of_pos p
+  | Model.XI p -> 2 * int_of_pos p + 1
+let int_of_n = function Model.N0 -> 0 | Model.Npos p -> int_of_pos p
 let () =
   let b = Buffer.create 4096 in
   try
     while true do
-      let line = input_line stdin in
+      let line = Stdlib.input_line Stdlib.stdin in
       let l = List.init (String.length line) (fun i -> n_of_int (Char.code line.[i])) in
       let out = Model.entry l in
       Buffer.clear b;
       List.iter (fun c -> Buffer.add_char b (Char.chr (int_of_n c land 255))) out;
-      print_string (Buffer.contents b); print_char '\n'; flush stdout
+      Stdlib.print_string (Buffer.contents b);
+      Stdlib.print_char '\n';
+      Stdlib.flush Stdlib.stdout
     done
   with End_of_file -> ()
